@@ -37,7 +37,7 @@ __tok_spec(const char *fp, const char **ep)
 	xt_calls++;
 	r = c10_real_tok_spec(fp, &e);
 	xt_ep = e;
-	if (xt_fmt_lo == NULL ? !xa_inside(fp) : (fp >= xt_fmt_lo && fp < xt_fmt_hi)) {
+	if (!xa_inside(fp) || (xt_fmt_lo != NULL && fp >= xt_fmt_lo && fp < xt_fmt_hi)) {
 		xt_in_fp = fp;
 		xt_in_ep = e;
 	}
@@ -593,9 +593,9 @@ format_case(int func, const char *fmt, size_t flen, int vi, int bsz)
 		bad = 1;
 	}
 	if (n > room) {
-		char tok[32];
+		char tok[32], fc[48];
 		xt_label_last(tok, sizeof(tok));
-		snprintf(key, sizeof(key), "%s: return value exceeds the buffer size, last specifier %s", fn, tok);
+		snprintf(key, sizeof(key), "%s: return value exceeds the buffer size, last specifier %s%s", fn, tok, tok[0] == '-' ? fmt_class(fmt, flen, fc, sizeof(fc)) : "");
 		report(key, (double)bsz, cas, *cmd ? cmd : NULL, "%s(buf, %d, \"%s\", %s) returned %zu", fn, bsz, fe, value_name(func, vi), n);
 		bad = 1;
 	}
